@@ -243,22 +243,22 @@ def check_attr(A, rep):
             rep.context(g.label, True)
             f = A.entry_points(c).get(a) or m.lookup(c, a)[1].func
             params = [p.arg for p in f.node.args.args][1:]
-            ent = [n for n in live(g) if is_enter(n, b_) and len(n.stack) == 2]
+            ent = [n for n in live(g) if is_enter(n, b_) and depth(n) == 2]
             okf = bool(ent) and all(list(n["args"].values())[1:] == [Val("param", p) for p in params] for n in ent)
             if okf:
                 rep.ok("C18.d", f"C18.d {c.name}.{a} forwards to {b_} with the same name{'/value' if len(params) > 1 else ''}")
             else:
                 rep.fail("C18.d", norm_key("C18.d", f.qualname, "forward"), f"{f.qualname} does not forward to {b_} with its own arguments unchanged", [f.loc], g.label)
             if a == "__getattr__":
-                hs = [n for n in live(g) if n.kind == "handler" and "KeyError" in n["types"] and len(n.stack) == 1]
-                rs_ = [n for n in live(g) if n.kind == "raise" and "AttributeError" in (n["exc"] or ()) and len(n.stack) == 1]
+                hs = [n for n in live(g) if n.kind == "handler" and "KeyError" in n["types"] and depth(n) == 1]
+                rs_ = [n for n in live(g) if n.kind == "raise" and "AttributeError" in (n["exc"] or ()) and depth(n) == 1]
                 conv = bool(hs) and any(g.path(h.id, [r.id]) for h in hs for r in rs_)
                 if conv:
                     rep.ok("C18.d", f"C18.d {c.name}.__getattr__: a missing key becomes AttributeError")
                 else:
                     rep.fail("C18.d", norm_key("C18.d", f.qualname, "keyerror"), f"{f.qualname}: a missing key is not converted into AttributeError", [f.loc], g.label)
             else:
-                brs = [n for n in live(g) if n.kind == "branch" and len(n.stack) == 1]
+                brs = [n for n in live(g) if n.kind == "branch" and depth(n) == 1]
                 conds[a] = [show(n["cond"]).replace("$" + params[0], "$K") for n in brs]
                 prefixes = [x.args[2][0].args[0] for n in brs for x in n["cond"].walk() if x.kind == "call" and x.args[0] == "startswith" and x.args[2] and x.args[2][0].kind == "const"]
                 if prefixes and all(p_ == "__" for p_ in prefixes):
